@@ -481,12 +481,13 @@ class CFG:
         return self.reach([self.entry])
 
 
-_CFG_CACHE: dict[int, CFG] = {}
+_CFG_CACHE: dict = {}
 
 
 def cfg_of(func_node) -> CFG:
-    c = _CFG_CACHE.get(id(func_node))
-    if c is None:
-        c = CFG(func_node)
-        _CFG_CACHE[id(func_node)] = c
+    hit = _CFG_CACHE.get(id(func_node))
+    if hit is not None and hit[0] is func_node:
+        return hit[1]
+    c = CFG(func_node)
+    _CFG_CACHE[id(func_node)] = (func_node, c)  # the node is kept alive with its entry: an address is never reused for another function
     return c
